@@ -46,6 +46,8 @@ def compare_final(clean, final):
         if n not in have:
             v.append("object %s of the clean commit is missing after the retry" % n[:16])
             break
+    if sorted(final.get("stray", [])) != sorted(clean.get("stray", [])):
+        v.append("stray file left in the cache directory (not there after a commit that never failed): %s" % sorted(final.get("stray", []))[:3])
     return v
 
 
@@ -78,11 +80,15 @@ def fault_stream(R, dud, drv, stepper, rng, tier, findings):
                         R.count("%s@%d:%d" % (c["id"], k, e), 2 < k)
                         viol = []
                         lock = os.path.exists(os.path.join(sc.proj.root, ".dud", "lock"))
+                        # classify the failed call from THIS run's trace (the order of independent steps,
+                        # e.g. Go map iteration over stages, may differ from the baseline run)
+                        sc.canon(raw2)
+                        run_by_k = dict(sc.by_k)
+                        failed_call = run_by_k.get(k, sc_by_k.get(k, "?"))
                         if rc2 != 0:
                             for tag, text in s2.crash_oracle(before, after, stage_old, stage_new, before["meta"], clean["meta"]):
                                 viol.append((tag, text))
                             # the lock survives only if the failed call was the unlock itself
-                            failed_call = sc_by_k.get(k, "?")
                             if lock and failed_call != "unlink L":
                                 viol.append(("lock-left", "commit failed (exit %d) and left .dud/lock behind" % rc2))
                             for sp, doc in after["stages"].items():
@@ -106,7 +112,7 @@ def fault_stream(R, dud, drv, stepper, rng, tier, findings):
                         for tag, text in viol:
                             kf = [f for f in findings if f.get("matcher") == "fault-at-link-step" and (tag.startswith("retry-differs") or tag == "lost" or (tag == "retry-failed" and "file does not exist" in text))
                                   and (failed_call.startswith("symlink W:") or failed_call.startswith("unlink W:")
-                                       or (failed_call.startswith("chmod O:") and sc_by_k.get(k - 1, "").startswith("rename W:")))]
+                                       or (failed_call.startswith("chmod O:") and run_by_k.get(k - 1, "").startswith("rename W:")))]
                             if kf:
                                 R.known_finding(kf[0]["id"], kf[0]["what"])
                             else:
